@@ -53,17 +53,34 @@ fn check_probe(obs: &mut Obs, pipe: &Pipe, form: Form, probe: &Probe, hist: &[St
 /// pipeline uses a scheduler); `extra_probes` more probes are subscribed to the
 /// same built pipeline when it is a multicast (share)
 pub fn grammar_job(pipe: Pipe, form: Form, len: usize, second_sub: bool) -> Job {
+  grammar_job_mode(pipe, form, len, second_sub, 0)
+}
+
+/// mode 0: the probe observer itself; 1 / 2: a subscriber assembled from
+/// `on_error` + `on_complete` + `subscribe(next)` closures (error handler
+/// attached first / second)
+pub fn grammar_job_mode(pipe: Pipe, form: Form, len: usize, second_sub: bool, mode: u8) -> Job {
   let n_in = pipe.n_inputs().max(1);
   let timed = pipe.uses_time();
   let name = format!(
-    "{} L{len}{} {}",
+    "{} L{len}{}{} {}",
     if form == Form::Local { "local" } else { "threads" },
     if second_sub { " 2subs" } else { "" },
+    match mode {
+      1 => " callbacks(on_error.on_complete.subscribe)",
+      2 => " callbacks(on_complete.on_error.subscribe)",
+      _ => "",
+    },
     pipe.show()
   );
   Job::new(name, move |ch, obs| {
     let mut r = Run::prepare(n_in, form);
-    r.subscribe(&pipe);
+    if mode == 0 {
+      r.subscribe(&pipe);
+    } else {
+      let p = r.probe.clone();
+      r.sub = r.subscribe_callbacks(&pipe, p, mode == 1);
+    }
     let p2 = Probe::new();
     let mut _s2 = Sub::None;
     if second_sub {
@@ -222,6 +239,18 @@ pub fn plan(tier: Tier) -> Plan {
     for p in chains(&Pipe::S(Src::Raw(0)), &all_ops(true), 1) {
       n_pipes += 1;
       jobs.push(grammar_job(p, form, len, false));
+    }
+    // the callback-assembled subscriber (on_error / on_complete / subscribe)
+    for mode in [1u8, 2] {
+      jobs.push(grammar_job_mode(Pipe::hot(0), form, len + 1, false, mode));
+      for p in chains(&Pipe::hot(0), &all_ops(false), 1) {
+        n_pipes += 1;
+        jobs.push(grammar_job_mode(p, form, len, false, mode));
+      }
+      for op2 in Op2::ALL {
+        n_pipes += 1;
+        jobs.push(grammar_job_mode(Pipe::hot(0).o2(op2, Pipe::hot(1)), form, len2, false, mode));
+      }
     }
     for p in chains(&Pipe::hot(0), &chain_ops, depth) {
       if p.depth() < 2 {
